@@ -20,8 +20,11 @@ MANIFEST = {
             "environment (Connection tasks with their two-step close, handshake service, validation answers, transport "
             "obeying the C08 grammar) as a labelled transition system. Proved for every (state, event) pair: handler "
             "totality with the computed bug table. Proved by invariant for every schedule of the restricted system "
-            "ReachP (all schedules and environment behaviours minus the two known findings, each excluded by one "
-            "explicit hypothesis: a closing Connection task finishes before the next event of that peer; a validation "
+            "ReachP (all schedules and environment behaviours minus the known findings, each excluded by one "
+            "explicit hypothesis: a Connection task that has entered close_connection finishes before the next event "
+            "of that peer; a Connection task that was signalled but not polled yet may stay unpolled over any further "
+            "events of that peer - disconnect, reconnect, a new negotiation - but runs before the protocol next "
+            "reports opened or an open failure for that peer; a validation "
             "answer is delivered only for the substream under validation): opened/closed alternate and no open failure is reported "
             "while open; closed is reported after a disconnect; no debug_assert fires; request markers and answers "
             "(opened / open failure; the user's own Reject counts as the answer, the code reports nothing then) "
@@ -30,9 +33,11 @@ MANIFEST = {
             "nothing is owed once transport, handshakes, validations and timers are quiet; every opened is preceded in its "
             "negotiation round by the Accept the user gave for exactly its inbound substream, or by auto-accept while the "
             "user's own request is outstanding. The unrestricted statements are false of the code: four witness theorems, "
-            "replayed on the real component as known findings. "
+            "replayed on the real component as known findings (grammar_alternation_witness needs no stalled close, "
+            "only a task that is not polled: finding late-closed-report). "
             "Tie: seeded operation histories (2-3 peers, with/without auto-accept, simultaneous opens, rejections, "
-            "handshake failures, substream open failures, drops and reconnects, timers, stalled closes) run on the real "
+            "handshake failures, substream open failures, drops and reconnects, timers, stalled closes, connection tasks "
+            "held back by the scheduler across disconnect/reconnect/new negotiation) run on the real "
             "NotificationProtocol/NotificationHandle and on the model, every observation compared incl. internal peer "
             "states; independent user-event-grammar oracle. Composition of tasks: an invariant proof over all schedules is "
             "the right level (the unit tests drive single transitions).",
@@ -40,11 +45,11 @@ MANIFEST = {
             "tokio mpsc FIFO; the transport obeys C08 (events only for connected peers, one answer per substream request); "
             "futures_timer delays replaced by explicit timer events. Handshake I/O progress is abstracted to its events.",
     "technique": "Lean 4 proof (invariants of a labelled transition system) + model/implementation correspondence check",
-    "design_ref": "DESIGN.md §7 C11, §8-j, §8-q",
+    "design_ref": "DESIGN.md §7 C11, §8-j, §8-q; notes/selftest-C11.md (late-closed-report)",
 }
 RULE = ("seeded histories of transport events (conn/disc/dialfail/subout/subfail/subin), remote actions on in-memory "
         "substreams (handshake, close, reset, read, notification, stalled close), user commands (open/close/accept/"
-        "reject/send/events) and timer expiries over 2-3 peers run on the real NotificationProtocol+Handle and on the "
+        "reject/send/events), scheduling commands (hold/unhold the Connection tasks of a peer) and timer expiries over 2-3 peers run on the real NotificationProtocol+Handle and on the "
         "Lean model; a case is non-trivial if at least one stream was opened or one open failure was reported; "
         "distinct = distinct (ops, observations) transcripts by SHA-256")
 TRUSTED_BASE = ["Lean 4.33 kernel", "axioms: propext, Classical.choice, Quot.sound only",
@@ -55,8 +60,13 @@ TRUSTED_BASE = ["Lean 4.33 kernel", "axioms: propext, Classical.choice, Quot.sou
                 "futures_timer::Delay replaced by explicit timer events (any time: over-approximation)",
                 "transport events obey the C08 grammar (proved separately for TransportService)"]
 ASSUMPTIONS = ["the transport answers each substream request at most once and only while the peer is connected (C08)",
-               "partial theorems: a Connection task that started closing finishes (notice + closed report) before the "
-               "protocol handles the next event for that peer (false only if Substream::close() stays pending)",
+               "partial theorems: a Connection task that has entered close_connection finishes (notice + closed report) "
+               "before the protocol handles the next event for that peer (false only if Substream::close() stays pending)",
+               "partial theorems: a Connection task whose shutdown oneshot fired but which has not been polled since is "
+               "polled before the protocol next reports opened / open failure for that peer (any other events of that "
+               "peer may be handled first; false only under an executor that starves the task for a whole negotiation)",
+               "a poll of a Connection task and a handler of the protocol loop do not overlap in time (interleaving at "
+               "poll granularity; the task looks at its shutdown oneshot first in every poll)",
                "partial theorems: the user answers a ValidateSubstream event before the protocol abandons that inbound "
                "substream (validation answers are keyed by peer, not by substream)",
                "open_answered_once counts the user's own Reject of the peer's inbound substream as the answer to the "
@@ -96,6 +106,31 @@ def frag_end(p, rng):
                        [f"disc {p}", "events", f"conn {p}"], [f"rclose {p} out", f"send {p} 33", "events"]])
 
 
+def frag_held(p, rng):
+    """Scheduling: the Connection task of an open stream is not polled (`hold`) while the connection is lost (or the
+    stream is closed by the user / the peer) and a new negotiation for the same peer starts; then it runs (`unhold`).
+    No `Substream::close()` is stalled anywhere. The new negotiation is completed only after the old task has run
+    (otherwise the old task's NotificationStreamClosed comes late: finding late-closed-report, see frag_held_late)."""
+    opener = rng.choice([frag_out, frag_in, frag_simul])(p)
+    use = frag_use(p) if rng.random() < 0.3 else []
+    end = rng.choice([[f"disc {p}", f"conn {p}"], [f"disc {p}", f"conn {p}"], [f"disc {p}", "events", f"conn {p}"],
+                      [f"close {p}"], [f"rclose {p} in"], [f"rreset {p} out"], [f"rclose {p} in", f"disc {p}", f"conn {p}"]])
+    start = rng.choice([[f"subin {p}"], [f"subin {p}", f"hs {p} in"], [f"subin {p}", f"hs {p} in", "events"],
+                        [f"open {p}"], [f"open {p}", f"subin {p}"], [f"open {p}", f"subout {p}"], []])
+    rest = rng.choice([[f"hs {p} in", "events", f"accept {p}", f"subout {p}", f"hs {p} out", "events"],
+                       [f"hs {p} in", "events", f"accept {p}", "events", f"subfail {p}", "events"],
+                       [f"hs {p} in", "events", f"reject {p}", "events"],
+                       ["events", f"open {p}", f"subout {p}", f"hs {p} out", f"subin {p}", f"hs {p} in", "events",
+                        f"accept {p}", "events"]])
+    return opener + use + [f"hold {p}"] + end + start + [f"unhold {p}"] + rest + ["state"]
+
+
+def frag_held_late(p, rng):
+    """The old task stays unpolled until the new stream has been reported (finding late-closed-report)."""
+    return (frag_in(p) + [f"hold {p}", rng.choice([f"disc {p}", f"close {p}"])] + ([f"conn {p}"] if rng.random() < 0.9 else [])
+            + frag_in(p) + [f"unhold {p}", "events", "state"])
+
+
 def noise(rng, peers, stall):
     p = rng.choice(peers)
     role = rng.choice(["in", "out"])
@@ -111,6 +146,7 @@ def noise(rng, peers, stall):
     ]
     if stall:
         table += [(0.03, f"stall {p} {role}{age}"), (0.02, f"release {p} {role}{age}")]
+    table += [(0.025, f"hold {p}"), (0.03, f"unhold {p}")]
     tot = sum(w for w, _ in table)
     x = r * tot
     for w, op in table:
@@ -146,6 +182,13 @@ def gen_case(rng, tier):
             if rng.random() < 0.8:
                 seq.append(f"conn {p}" + rng.choice(["", "", "", " cap=1 drain=0"]))
             for _ in range(rng.choice([1, 1, 2, 3])):
+                r = rng.random()
+                if r < 0.12:
+                    seq += frag_held(p, rng)
+                    continue
+                if r < 0.14:
+                    seq += frag_held_late(p, rng)
+                    continue
                 f = rng.choice([frag_out, frag_in, frag_simul, frag_dial])(p)
                 if rng.random() < 0.6:
                     f = f + frag_use(p)
@@ -175,7 +218,7 @@ def gen_case(rng, tier):
         ops += ["events"]
         for p in peers:
             ops += [f"release {p} in", f"release {p} out", f"release {p} in age=1", f"release {p} out age=1"] if stall else []
-            ops += [f"disc {p}"]
+            ops += [f"unhold {p}", f"disc {p}"]
         ops += ["events", "state"]
     return ops
 
@@ -202,7 +245,18 @@ def witness_cases():
     stale_request = ["cfg auto=0 dial=1", "conn 1", "subin 1", "hs 1 in", "events", "accept 1", "subout 1", "hs 1 out",
                      "events", "stall 1 in", "rclose 1 in", "close 1", "subin 1", "hs 1 in", "events", "accept 1", "state",
                      "release 1 in age=1", "events", "state", "disc 1", "events", "state"]
-    return [stale_notice, late_closed, dangling, stale_accept, plain, stale_request]
+    # scheduling only, nothing stalled: the task of the old stream is not polled across a disconnect, a reconnect and
+    # the start of the next negotiation, then runs: harmless on the real code (shutdown.send(()) => quiet close)
+    held_ok = ["cfg auto=0 dial=1", "conn 1"] + frag_in(1) + ["hold 1", "disc 1", "conn 1", "subin 1", "hs 1 in", "events",
+               "state", "unhold 1", "events", "state", "accept 1", "subout 1", "hs 1 out", "events", "send 1 07",
+               "rread 1 out", "disc 1", "events", "state"]
+    held_ok2 = ["cfg auto=1 dial=1", "conn 1"] + frag_out(1) + ["hold 1", "rclose 1 in", "disc 1", "conn 1", "open 1",
+                "subin 1", "unhold 1", "events", "open 1", "subout 1", "hs 1 in", "hs 1 out", "events", "state", "disc 1",
+                "events", "state"]
+    # late-closed-report: the old task is not polled until the next stream has been negotiated and reported
+    held_late = ["cfg auto=0 dial=1", "conn 1"] + frag_in(1) + ["hold 1", "disc 1", "conn 1"] + frag_in(1) + \
+                ["unhold 1", "events", "state", "send 1 05", "events", "disc 1", "events", "state"]
+    return [stale_notice, late_closed, dangling, stale_accept, plain, stale_request, held_ok, held_ok2, held_late]
 
 
 def corpus():
@@ -229,6 +283,13 @@ def mutate_case(rng, case, n):
                 c.insert(i, rng.choice(case[1:]))
             else:
                 c.insert(i, noise(rng, PEERS, False))
+        if rng.random() < 0.5:
+            # scheduling mutation: hold the tasks of a peer over a stretch of the case
+            p = rng.choice(PEERS)
+            i = rng.randrange(1, len(c) + 1)
+            j = rng.randrange(i, min(len(c), i + 8) + 1)
+            c.insert(j, f"unhold {p}")
+            c.insert(i, f"hold {p}")
         yield c
 
 
@@ -236,6 +297,7 @@ def mutate_case(rng, case, n):
 
 EV = re.compile(r"(validate|opened|closed|fail|notif)\((\d+)(?:,([^)]*))?\)")
 CALL = re.compile(r"\b(open|fc)\((\d+)(?:,s(\d+))?\)")
+STALLED = re.compile(r"\bstalled\((\d+)\)")
 
 
 def parse_events(o):
@@ -270,11 +332,21 @@ def oracle(case, out):
     boundary_step = {}
     round_answer = {}
     nodrain = set()
+    held = set()                # peers whose connection task(s) are currently not being polled (`hold`)
+    held_since_opened = set()   # a hold was placed on the peer's task since its stream was reported opened
+    hold_step = {}              # peer -> op index of the latest effective `hold`
+    unhold_step = {}            # peer -> op index of the `unhold` that ended the latest hold
+    prev_events = -1            # op index of the previous `events` op
+    late = set()                # the protocol reported opened / open failure for the peer while an old task was held:
+                                # its NotificationStreamClosed is late (finding late-closed-report)
 
     def v(kind, msg, i, **kw):
         d = {"kind": kind, "msg": msg, "step": i, "op": case[i] if i < len(case) else None,
              "out": out[i] if i < len(out) else None, "stale_conn_task": False, "dangling_pending_open": False,
              "stale_accept": False}
+        vp = kw.pop("peer", None)
+        d["stale_conn_task"] = vp in taint
+        d["held_late"] = vp in late
         d.update(kw)
         bad.append(d)
 
@@ -295,16 +367,23 @@ def oracle(case, out):
         if drains and not answered:
             v("open-unanswered", f"open request for connected idle peer {p} at step {i} started nothing and was "
               f"not answered while the connection lasted", i, dangling_pending_open=(p in dangling),
-              stale_conn_task=(p in taint))
+              peer=p)
+
+    def overtakes_held(p):
+        # an event drained now was put on the user channel after the previous drain; it overtakes the
+        # NotificationStreamClosed of the old stream of `p` because of the scheduler iff the old stream's task was
+        # being held back at some moment since then
+        return p in held or (p in held_since_opened and unhold_step.get(p, -1) > prev_events)
 
     for i in range(n):
         op, o = case[i], out[i]
         t = op.split()
+        late_closed_now = set()
         if not t:
             continue
         peer = int(t[1]) if len(t) > 1 and t[1].isdigit() else None
         if o.startswith("panic"):
-            v("panic", f"protocol panicked in `{op}`: {o}", i, stale_conn_task=(peer in taint))
+            v("panic", f"protocol panicked in `{op}`: {o}", i, peer=peer)
             break
         if o == "skipped":
             break
@@ -317,8 +396,19 @@ def oracle(case, out):
             # ops that can start a negotiation round; an event drained later may predate them
             subin_since_events.add(peer)
             last_terminal[peer] = False
-        if t[0] == "stall":
-            taint.add(peer)
+        for m in STALLED.finditer(o):
+            # a `Substream::close()` of a connection task of that peer is suspended (explicitly stalled close)
+            taint.add(int(m.group(1)))
+        if t[0] == "hold":
+            m = re.search(r"held=(\d+)", o)
+            if m and int(m.group(1)) > 0:
+                held.add(peer)
+                held_since_opened.add(peer)
+                hold_step[peer] = i
+        if t[0] == "unhold":
+            if peer in held:
+                unhold_step[peer] = i
+            held.discard(peer)
         if t[0] == "conn":
             connected.add(peer)
             (nodrain.add if "drain=0" in op else nodrain.discard)(peer)
@@ -364,9 +454,11 @@ def oracle(case, out):
                 last_validate_step[p] = i
                 round_answer[p] = None
             elif kind == "opened":
+                if view_open.get(p) and overtakes_held(p):
+                    late.add(p)
                 if view_open.get(p):
                     v("opened-twice", f"stream to peer {p} reported opened while already open", i,
-                      stale_conn_task=(p in taint))
+                      peer=p)
                 view_open[p] = True
                 # inbound_after_accept
                 lv = last_validate_step.get(p)
@@ -374,26 +466,39 @@ def oracle(case, out):
                     if round_answer.get(p) != "accept":
                         v("opened-without-accept", f"stream to peer {p} opened although the user never accepted the "
                           f"inbound substream announced at step {lv}", i,
-                          stale_accept=any(a <= lv for a in all_accepts.get(p, [])), stale_conn_task=(p in taint))
+                          stale_accept=any(a <= lv for a in all_accepts.get(p, [])), peer=p)
                 else:
                     if not (auto == 1 and any(j > boundary_step.get(p, -1) for j in open_ok_steps.get(p, []))):
                         v("opened-without-accept", f"stream to peer {p} opened without validation and auto-accept "
-                          f"does not apply", i, stale_conn_task=(p in taint))
+                          f"does not apply", i, peer=p)
                 last_validate_step.pop(p, None)
                 accept_steps[p] = []
                 qualifying.pop(p, None)
+                if p not in held and hold_step.get(p, -1) <= prev_events:
+                    # this stream was reported after the hold had been placed: its task is not a held one
+                    held_since_opened.discard(p)
             elif kind == "closed":
                 if not view_open.get(p):
                     v("closed-without-opened", f"stream to peer {p} reported closed but it was not open", i,
-                      stale_conn_task=(p in taint))
+                      peer=p)
                 view_open[p] = False
-                last_validate_step.pop(p, None)
-                accept_steps[p] = []
-                quiet[p] = p in connected and p not in subin_since_events
+                if p in held_since_opened:
+                    # the task of the old stream was held back for a while: its report may come after the next
+                    # negotiation round has started (that round's bookkeeping stays; nothing is known to be quiet)
+                    late_closed_now.add(p)
+                    quiet[p] = False
+                    if p not in held:
+                        held_since_opened.discard(p)
+                else:
+                    last_validate_step.pop(p, None)
+                    accept_steps[p] = []
+                    quiet[p] = p in connected and p not in subin_since_events
             elif kind == "fail":
+                if view_open.get(p) and overtakes_held(p):
+                    late.add(p)
                 if view_open.get(p):
                     v("failure-while-open", f"open failure for peer {p} while its stream is open", i,
-                      stale_conn_task=(p in taint))
+                      peer=p)
                 last_validate_step.pop(p, None)
                 accept_steps[p] = []
                 qualifying.pop(p, None)
@@ -401,10 +506,12 @@ def oracle(case, out):
             elif kind == "notif":
                 if not view_open.get(p):
                     v("notification-while-closed", f"notification from peer {p} delivered outside an open period", i,
-                      stale_conn_task=(p in taint))
+                      peer=p)
         if t[0] == "events":
             for kind, p, extra in parse_events(o):
-                if kind == "closed" or (kind == "fail" and extra != "valpending"):
+                if kind == "closed" and p in late_closed_now:
+                    last_terminal[p] = False
+                elif kind == "closed" or (kind == "fail" and extra != "valpending"):
                     last_terminal[p] = p not in subin_since_events
                 elif kind in ("opened", "validate", "fail"):
                     last_terminal[p] = False
@@ -414,7 +521,10 @@ def oracle(case, out):
             subin_since_events.clear()
             for kind, p, extra in parse_events(o):
                 if kind in ("opened", "closed"):
-                    boundary_step[p] = i
+                    # the event was put on the channel some time after the previous drain: an open request accepted
+                    # by the handle since then may belong to the next round already
+                    boundary_step[p] = prev_events
+            prev_events = i
         if t[0] in ("accept", "reject"):
             quiet[peer] = False
         if t[0] in ("accept", "reject") and peer in last_validate_step and round_answer.get(peer) is None:
@@ -429,9 +539,9 @@ def oracle(case, out):
         for p, is_open in view_open.items():
             # only for peers that really are disconnected at the end (a shrunk case may end with a `disc` of
             # some other, unconnected peer)
-            if is_open and p not in connected:
+            if is_open and p not in connected and p not in held:
                 v("not-closed-on-disconnect", f"connection to peer {p} lost but its open stream was never reported "
-                  f"closed", last, stale_conn_task=(p in taint))
+                  f"closed", last, peer=p)
     if complete:
         for p in list(qualifying):
             check_qualifying(p, n)
@@ -463,7 +573,11 @@ def nontrivial(case, out):
 def matches_known(k, v):
     sig = k.get("signature", {})
     if sig.get("stale_conn_task"):
+        # only with an explicitly stalled close in the history (`stall ...` that really suspended a close():
+        # the adapter then prints `stalled(p)`); a stale notice / late report without one is NOT this finding
         return bool(v.get("stale_conn_task"))
+    if sig.get("held_late"):
+        return bool(v.get("held_late")) and not v.get("stale_conn_task")
     if sig.get("dangling_pending_open"):
         return v.get("kind") == "open-unanswered" and bool(v.get("dangling_pending_open")) and not v.get("stale_conn_task")
     if sig.get("stale_accept"):
